@@ -623,7 +623,7 @@ PROPS['C02'] = dict(
                'implies what pass 2 requires and that both passes agree on the address of every item.',
     level_note='parser/segment creation: unit DIR #org #seg_switch + witnesses; `.org 0` after code is a recorded finding',
     technique='Verus loop invariants on extracted pass_1_internal/build_pass_1/pass_2_internal/build_pass_2 against recursive layout and fold oracles',
-    verus=['pass1', 'pass2', 'link', 'data', 'encv', 'dir', 'pass0', 'mexp'],
+    verus=['pass1', 'pass2', 'link', 'data', 'encv', 'dir', 'pass0'],
     depends_on=['C09'],   # the items whose positions the property speaks of include those a macro expansion produces: the splice of pass 0 is presupposed
     witnesses=witnesses_layout,
     witness_key='layout',
@@ -1090,7 +1090,7 @@ PROPS['C15'] = dict(
     level_note='the rendering "line: N" (fmt::Display) and the message text are dropped by extraction: bound by single-fault witnesses; errors raised '
                'inside pass 0 (macro expansion) and inside an included file are not under contract',
     technique='Verus postconditions on error locations over the extracted passes / Directive::parse / parse_iter (rule R1 keeps the location)',
-    verus=['pass1', 'pass2', 'dir', 'cond', 'data', 'encv', 'expr', 'pass0', 'ctxu', 'mexp'],
+    verus=['pass1', 'pass2', 'dir', 'cond', 'data', 'encv', 'expr', 'pass0', 'ctxu'],
     depends_on=['C10', 'C04', 'C08'],   # 'an undefined symbol, a duplicate label' (C10) and 'an operand of the wrong kind or out of range' (C04) fail the build: presupposed; `.error` / `.message` take effect exactly 'wherever they are assembled', i.e. in the selected branch (C08)
     whole_units=['expr'],     # an expression that must fail but evaluates hides the fault: every clause of EXPR counts here
     witnesses=witnesses_c15,
@@ -1171,7 +1171,7 @@ PROPS['C16'] = dict(
     level_note='NOT under contract (bounded hostile-input witnesses only): action code inside the PEG grammar, Display / String::replace inside macro_expand, utility.rs, main.rs; '
                'stack depth of the generated recursive-descent parser on deeply nested parentheses; std::path / std::fs calls are assumed not to panic',
     technique='panic-freedom and termination obligations generated by Verus/Kani for every extracted function (no preconditions on inputs)',
-    verus=['encv', 'expr', 'data', 'pass1', 'pass2', 'build', 'hex', 'ctxu', 'dir', 'cond', 'pass0', 'inc', 'mexp'],
+    verus=['encv', 'expr', 'data', 'pass1', 'pass2', 'build', 'hex', 'ctxu', 'dir', 'cond', 'pass0', 'inc'],
     kani=[dict(slice='conv', harnesses=lambda tier: _conv_harnesses(tier)), dict(slice='dev', harnesses=lambda tier: _dev_harnesses(tier)),
           dict(slice='exprstep', harnesses=lambda tier: _step_harnesses(tier)), dict(slice='enc', harnesses=_enc_harnesses(), cex=_enc_cex)],
     cex_replay=_enc_witness_from_cex,
@@ -1252,15 +1252,15 @@ PROPS['C09'] = dict(
                'proof level for (a)-(d) only',
     technique='Verus fold oracle for pass0_internal (mutual recursion with a nesting budget) + skip/Directive::parse clauses + Verus contract on the '
               'extracted macro_expand / as_pass0_result / as_parse_result against a substitution oracle (Display, str::replace, parse_iter assumed)',
-    verus=['pass0', 'cond', 'dir', 'mexp'],
+    verus=['pass0', 'cond', 'dir'],   # pass0 splices in the whole of unit MEXP (contracts/mexp.vspec): macro_expand and the contexts are verified in the same file
     witnesses=witnesses_c09,
-    functions=['builder::pass0::pass0_internal', 'builder::pass0::macro_expand', 'Pass0Context::{add_segment, as_pass0_result}',
+    functions=['builder::pass0::{build_pass_0, pass0_internal, macro_expand}', 'Pass0Context::{add_segment, push_to_last, as_pass0_result}',
                'ParseContext::{add_segment, as_parse_result}', 'parser::skip (EndMacro mode)', 'Directive::parse (Macro arm)'],
     explanation='p0_items/p0_segs in contracts/pass0.vspec; subst_line/subst_lines/keep_segs/nonempty in contracts/mexp.vspec; #macro_body in cond.vspec; '
                 '#macro in dir.vspec.',
-    assumptions=['unit PASS0 sees macro_expand as a stub whose result and effect are uninterpreted functions mexp/menv of (name, operands, macro table, '
-                 'state, current address); unit MEXP proves that the real function IS such a function (its result and final state are given by '
-                 'explicit spec terms over exactly those arguments) and which one; the two units are linked by reading, not by a shared definition',
+    assumptions=['unit PASS0 contains the whole of builder/pass0.rs: pass0_internal calls the macro_expand that is verified in the same file (no stub '
+                 'between them); the oracle functions mexp/menv of the splice fold are DEFINED from macro_expand\'s postconditions (lookup, substitution, '
+                 'parse_iter, kept segments)',
                  'MEXP: fmt::Display of an operand (op_str), format!("@{}", n) (marker), str::replace (replace_all), HashMap::get (tab_get) and '
                  'parse_iter (pi_res / pi_segs / pi_env: unit COND proves it equal to the line-loop fold) are uninterpreted',
                  'MEXP: the state behind Rc<RefCell<..>> handles is an explicit parameter `vfw_w` added to the signatures (A-alias): a handle is '
@@ -1268,7 +1268,7 @@ PROPS['C09'] = dict(
                  'context\'s segment handle and the shared environment',
                  'MEXP: Pass0Context::last_segment() is read as "the last element of the list" (its body is slice::last + Rc::clone)',
                  'R21: `.iter()[.enumerate()].filter(|..| P).map(|..| E).collect()` as the index loop `if P { out.push(E) }` (closure bodies verbatim)',
-                 'build_pass_0 constructs its Pass0Context by a struct literal that unit PASS0 abstracts as new_from (read, not verified)',
+                 'build_pass_0: the struct literal of its Pass0Context is verified as written (Macro::new() is read as the empty macro state)',
                  'R17: for x in v.iter().skip(1) as an index loop'],
     trusted=['spec/macro_sem.py (witness generator and textual hand expansion)'],
     bounded=['150 (quick) / 1500 (thorough) generated macro programs (registers, pointer forms, expressions of every precedence with and without '
